@@ -321,6 +321,15 @@ example : NoGenid simpleUrl
   subst ht
   rcases hu with hu | hu <;> simp at hu
 
+/-- the driver's `urljoin`: an authority WITH a path still puts the skolem IRI under the well-known path at the root,
+    a relative basepath does not (those IRIs are outside the clause; the harness only observes them) -/
+example : simpleJoin "http://example.org/datasets/42/".toList "/.well-known/genid/rdflib/b".toList =
+    "http://example.org/.well-known/genid/rdflib/b".toList := by decide
+example : simpleJoin "http://example.org/datasets/42".toList ".well-known/genid/rdflib/b".toList =
+    "http://example.org/datasets/.well-known/genid/rdflib/b".toList := by decide
+example : simpleJoin "http://example.org".toList ".well-known/genid/rdflib/b".toList =
+    "http://example.org/.well-known/genid/rdflib/b".toList := by decide
+
 /-- non-vacuity of the external round trip: two occurrences of one node get ONE fresh label -/
 example : (deSkolemizeSt simpleUrl (fun k => (toString k).toList) ⟨[], 0⟩
     (skolemizeAt simpleUrl "http://example.org".toList skolemGenid
